@@ -47,7 +47,7 @@ def l_variants(acc, depth, rich):
         out += [("i", "y"), ("x", "i")]
         if rich:
             # ("i", "ix"): one field is the producer of the other field's value (shared input op at uneven depth)
-            out += [("ix", "y"), ("i", "i"), ("y", "ix"), ("i", "ix"), ("ix", "i")]
+            out += [("ix", "y"), ("i", "i"), ("y", "ix"), ("i", "ix"), ("ix", "i"), ("il", "y"), ("x", "il")]
     if depth >= 2 and rich:
         out += [("o", "i"), ("o", "y")]
     return out
@@ -200,7 +200,7 @@ def slim_programs(nodes, acc="acc1"):
         g = SlimGrammar(accs=(acc,), calls=("CALL",), ifp=False, max_depth=1)
         flat = [p for p in g.seqs(nodes, 1, 0) if has_launch(p)]
         # the same size at nesting depth exactly 2 (call / setup two regions deep: for{if{..}}, if{for{..}}, else branches), fewer leaves
-        g2 = SlimmerGrammar(accs=(acc,), calls=("CALL",), ifp=False, max_depth=2)
+        g2 = SlimmerGrammar(accs=(acc,), calls=("CALL",), ifp=False, whiles=True, max_depth=2)
         deep = [p for p in g2.seqs(nodes, 2, 0) if has_launch(p) and nesting(p) == 2]
         _SLIM[(nodes, acc)] = flat + deep
     return _SLIM[(nodes, acc)]
@@ -273,6 +273,8 @@ class Emitter:
             return ivs[-1]["i"]
         if a == "ix":
             return ivs[-1]["ix"]
+        if a == "il":
+            return ivs[-1]["il"]
         if a == "o":
             return ivs[-2]["i"]
         raise ValueError(a)
@@ -323,7 +325,14 @@ class Emitter:
                     out.append(f"{ind}scf.for {iv} = {names[0]} to {names[1]} step {names[2]} {{")
                 out.append(f"{ind}  {ic} = arith.index_cast {iv} : index to {self.ft}")
                 out.append(f"{ind}  {ix} = arith.addi {ic}, %x : {self.ft}")
-                self._seq(s[1], out, ind + "  ", ivs + [dict(i=ic, ix=ix, iv=iv)])
+                il = None
+                if "'il'" in repr(s[1]):
+                    # i - lb: the loop's own lower bound used as an ordinary outer value in the input chain of a setup
+                    lbname = f"%lb{j}" if k == "FOR" else names[0]
+                    ild, il = self.fresh("ild"), self.fresh("il")
+                    out.append(f"{ind}  {ild} = arith.subi {iv}, {lbname} : index")
+                    out.append(f"{ind}  {il} = arith.index_cast {ild} : index to {self.ft}")
+                self._seq(s[1], out, ind + "  ", ivs + [dict(i=ic, ix=ix, iv=iv, il=il)])
                 out.append(f"{ind}}}")
             elif k in ("IF", "IFP"):
                 if k == "IF":
